@@ -56,14 +56,17 @@ for pid in sorted(P):
         'level_note': COMMON_NOTE + note,
         'technique': 'Lean 4 theorems over a hand-written model (lean/HpackVerif/Props/%s.lean), data regenerated from the source by a translator, logic tied by differential correspondence%s; judges on the real code find the failing input' % (
             pid, {'C11': ' and, for encode_integer/decode_integer, by a source-to-Lean translation proved equal to the model (Props.Src)',
-                  'C02': ' and, for decode_integer and decode_huffman, by a source-to-Lean translation proved equal to the model (Props.Src, Props.SrcHuff)',
-                  'C04': ' and, for decode_integer and decode_huffman, by a source-to-Lean translation proved equal to the model (Props.Src, Props.SrcHuff)',
-                  'C05': ' and, for decode_integer and decode_huffman, by a source-to-Lean translation proved equal to the model (Props.Src, Props.SrcHuff)',
+                  'C02': ' and, for Decoder.decode with decode_integer, decode_huffman and the table methods it calls, by a source-to-Lean translation proved equal to the model (Props.SrcDec, Props.Src, Props.SrcHuff, Props.SrcTable)',
+                  'C04': ' and, for Decoder.decode with decode_integer, decode_huffman and the table methods it calls, by a source-to-Lean translation proved equal to the model (Props.SrcDec, Props.Src, Props.SrcHuff, Props.SrcTable)',
+                  'C05': ' and, for Decoder.decode with decode_integer, decode_huffman and the table methods it calls, by a source-to-Lean translation proved equal to the model (Props.SrcDec, Props.Src, Props.SrcHuff, Props.SrcTable)',
+                  'C07': ' and, for Decoder.decode, by a source-to-Lean translation proved equal to the model (Props.SrcDec)',
+                  'C15': ' and, for the decoder side, by a source-to-Lean translation proved equal to the model (Props.SrcDec)',
+                  'C17': ' and, for Decoder.decode, by a source-to-Lean translation proved equal to the model (Props.SrcDec)',
                   'C13': ' and, for decode_huffman, by a source-to-Lean translation proved equal to the model (Props.SrcHuff)',
                   'C16': ' and, for decode_integer and its cap, by a source-to-Lean translation proved equal to the model (Props.Src)',
                   'C06': ' and, for HeaderTable.add/_shrink/maxsize, by a source-to-Lean translation proved equal to the model (Props.SrcTable)',
                   'C14': ' and, for HeaderTable.get_by_index, by a source-to-Lean translation proved equal to the model (Props.SrcTable)',
-                  'C08': ' and, for the table setter, by a source-to-Lean translation proved equal to the model (Props.SrcTable)',
+                  'C08': ' and, for Decoder.decode and the table setter, by a source-to-Lean translation proved equal to the model (Props.SrcDec, Props.SrcTable)',
                   'C10': ' and, for the table operations, by a source-to-Lean translation proved equal to the model (Props.SrcTable)',
                   'C19': ' and, for the table operations, by a source-to-Lean translation proved equal to the model (Props.SrcTable)'}.get(pid, '')),
     })
@@ -78,7 +81,7 @@ m = {
         'add_only': True,
     },
     'engines': [{'name': 'lean4-proof+correspondence', 'path': 'check', 'serves_properties': sorted(P),
-                 'kind_free_text': 'Lean 4 kernel-checked theorems about a model of the code; translator (data; and source text -> Lean for the integer codec, decode_huffman and HeaderTable, proved equal to the model) + line-protocol correspondence (logic) tie the model to /repo on every run'}],
+                 'kind_free_text': 'Lean 4 kernel-checked theorems about a model of the code; translator (data; and source text -> Lean for the integer codec, decode_huffman, HeaderTable and the Decoder class, proved equal to the model) + line-protocol correspondence (logic) tie the model to /repo on every run'}],
     'checks': checks,
     'not_applicable': [],
     'notes': 'Genuine defects D1-D4 were repaired by fix: commits in /repo (known_findings.json, fixed entries); D5 (C09) is a known finding. See DESIGN.md.',
